@@ -280,7 +280,10 @@ def directed_fragment(draw, mm, max_atoms=5, perturb=True):
         # a charged molecule gets a charge prefix often: 'negative' / 'positive' are the only signed numbers of the language
         charge = 'neutral' if tot == 0 else 'positive' if tot == 1 else 'negative' if tot == -1 else 'neutral'
         ast['molprefix'] = [draw(st.sampled_from([charge, charge, 'cyclic' if mm.rings else 'linear'] +
-                                                 (['positive', 'negative', 'neutral'] if tot != 0 else [])))]
+                                                 (['positive', 'negative', 'neutral'] if tot != 0 else []) +
+                                                 # hydrocarbon-class prefixes on whatever the molecule is (a C=O or C=N double bond
+                                                 # is not an olefinic one)
+                                                 ['olefinic', 'paraffinic', 'aromatic']))]
         if ast['molprefix'][0] in ('cyclic', 'linear'):
             pass
     if perturb and draw(st.integers(0, 2)) == 0:
